@@ -193,8 +193,78 @@ def run(rep, tier, seed, replay=None, proof_ok=True):
             rep.sample({'files': len(texts), 'top': r['top'], 'ignore': r['ignore'], 'boost': r['boost']}, cap=4)
     finally:
         model.close()
-        shutil.rmtree(os.path.join(common.BUILD, 'tmp.%d' % os.getpid()), ignore_errors=True)
+    matlab_half(rep, tier, seed)
+    shutil.rmtree(os.path.join(common.BUILD, 'tmp.%d' % os.getpid()), ignore_errors=True)
     return 0
+
+
+ENDINGS = ['', '\n', '\n\n', ' ', '\r\n', ' // trailing comment', ' // trailing comment\n', ' /* block */', '\t', ' // a; b {']
+
+
+def _ml_job(job):
+    """MATLAB: a list of files vs one file holding their declarations in sequence; API vs scripts/matlab_wrap.py"""
+    from props import mlcommon as ml
+    k, seed = job
+    r = random.Random('c16m/%d/%d' % (seed, k))
+    nfiles = r.randint(2, 4)
+    parts = []
+    for i in range(nfiles):
+        g = G.Gen(r, G.Profile(max_decls=3, matlab_safe=True))
+        m = g.module()
+        # distinct names across files: one namespace per file
+        parts.append(G.text(G.tokens([('ns', 'part%d' % i, m)])))
+    files = [t + r.choice(ENDINGS) for t in parts]
+    single = '\n'.join(parts) + '\n'
+    a = ml.impl_matlab(files, module_name='mod')
+    b = ml.impl_matlab([single], module_name='mod')
+    # the script on the same list
+    d = scratch()
+    try:
+        paths = []
+        for i, t in enumerate(files):
+            p = os.path.join(d, 'f%d.i' % i)
+            with open(p, 'w', newline='') as f:
+                f.write(t)
+            paths.append(p)
+        out = os.path.join(d, 'out')
+        os.makedirs(out)
+        rc, err = run_script('matlab_wrap.py', ['--src', ';'.join(paths), '--out', out, '--module_name', 'mod',
+                                                '--top_module_namespaces', '', '--ignore', 'no::Such'], d)
+        tree = ml.read_tree(out) if rc == 0 else None
+    finally:
+        shutil.rmtree(d, ignore_errors=True)
+    return {'files': files, 'single': single, 'list': a, 'one': b, 'script': (rc, tree, err)}
+
+
+def matlab_half(rep, tier, seed):
+    from props import mlcommon as ml
+    ml.ensure_tpl()
+    n = 40 if tier == 'quick' else 800
+    with mp.get_context('fork').Pool(12) as pool:
+        results = pool.map(_ml_job, [(k, seed) for k in range(n)], chunksize=1)
+    shown = 0
+    for res in results:
+        a, b = res['list'], res['one']
+        rep.hit('ml/' + common.sha(repr(res['files'])), a[0] == 'ok' and b[0] == 'ok')
+        what = None
+        if a[0] != b[0]:
+            what = 'MATLAB: the file list is %s, the single file is %s' % (a[0], b[0])
+        elif a[0] == 'ok' and a[1] != b[1]:
+            diff = sorted(f for f in set(a[1]) | set(b[1]) if a[1].get(f) != b[1].get(f))
+            what = 'MATLAB: wrapping the file list differs from wrapping one file with the same declarations (%s)' % diff[:5]
+        elif a[0] == 'ok':
+            rep.bump('ml_list_equals_single')
+        else:
+            rep.bump('ml_both_' + a[0])
+        if what is None and a[0] == 'ok':
+            rc, tree, err = res['script']
+            if rc != 0 or tree != a[1]:
+                what = 'scripts/matlab_wrap.py differs from MatlabWrapper.wrap on the same file list (rc=%s %s)' % (rc, err[-200:])
+            else:
+                rep.bump('ml_script_equals_api')
+        if what and shown < 3:
+            shown += 1
+            rep.violation({'kind': 'counterexample', 'what': what, 'inputs': res['files'], 'single_file': res['single']})
 
 
 def report(rep, shown, what, r, a, b):
